@@ -130,9 +130,15 @@ fn run_clients(db: &Arc<Db>, sc: Scenario) -> (Vec<(u64, Vec<usize>)>, Option<St
 		let (release_tx, release_rx) = std::sync::mpsc::channel::<()>();
 		let idb = db.clone();
 		let h = std::thread::spawn(move || {
+			// the callback blocks ONCE: returning false ends the iteration of one value table only, the tables of the
+			// other size tiers are still visited (and since repair F15 they show what has been logged meanwhile)
+			let mut first = true;
 			let _ = idb.iter_column_while(0, |_| {
-				let _ = started_tx.send(());
-				let _ = release_rx.recv_timeout(std::time::Duration::from_secs(30));
+				if first {
+					first = false;
+					let _ = started_tx.send(());
+					let _ = release_rx.recv_timeout(std::time::Duration::from_secs(30));
+				}
 				false
 			});
 		});
